@@ -176,6 +176,19 @@ func generatedBatchModels(r *rand.Rand) []*batchModel {
 			},
 			bytes: buildModel([]*onnx.NodeProto{nd(op.name, insL, outs, aI("hidden_size", int64(H)))},
 				map[string]tensor.Tensor{"w": f32T(r, 1, 1, op.g*H, I), "r": f32T(r, 1, 1, op.g*H, H), "b": f32T(r, 1, 1, 2*op.g*H)}, namesL, append([]int{3, 1}, ranks[1:]...), outs)})
+		// direction = reverse / bidirectional: refused by the library; if ever accepted, per-sample independence
+		// must hold for Y (batch on axis 2) and the final states (axis 1) alike
+		for _, dir := range []string{"reverse", "bidirectional"} {
+			dir := dir
+			D := 1
+			if dir == "bidirectional" {
+				D = 2
+			}
+			add(&batchModel{name: "node-" + op.name + "-" + dir, inputs: []string{"x"}, inAxis: []int{1}, outputs: outs, outAxis: oax, mayRefuse: true,
+				mk: one(func(n int) []int { return []int{S, n, I} }, 1),
+				bytes: buildModel([]*onnx.NodeProto{nd(op.name, []string{"x", "w", "r", "b"}, outs, aI("hidden_size", int64(H)), aS("direction", dir))},
+					map[string]tensor.Tensor{"w": f32T(r, 1, D, op.g*H, I), "r": f32T(r, 1, D, op.g*H, H), "b": f32T(r, 1, D, 2*op.g*H)}, []string{"x"}, []int{3}, outs)})
+		}
 		// default initial state, last time step taken with Gather (as sample_models/ndm.onnx does)
 		add(&batchModel{name: "node-" + op.name + "-squeeze-gather-last", inputs: []string{"x"}, inAxis: []int{1}, outputs: []string{"y"}, outAxis: []int{0},
 			mk: one(func(n int) []int { return []int{S, n, I} }, 1),
@@ -190,6 +203,11 @@ func generatedBatchModels(r *rand.Rand) []*batchModel {
 		bytes: buildModel([]*onnx.NodeProto{nd("Add", []string{"x", "a"}, []string{"t1"}), nd("Mul", []string{"t1", "m"}, []string{"t2"}), nd("Sub", []string{"t2", "a"}, []string{"t3"}),
 			nd("Div", []string{"t3", "d"}, []string{"t4"}), nd("PRelu", []string{"t4", "sl"}, []string{"t5"}), nd("Abs", []string{"t5"}, []string{"y"})},
 			map[string]tensor.Tensor{"a": f32T(r, 1, 4), "m": f32T(r, 1, 2, 1), "d": tensor.New(tensor.WithShape(1), tensor.WithBacking([]float32{1.7})), "sl": f32T(r, 1, 4)}, []string{"x"}, []int{3}, []string{"y"})})
+	// 6a. Gemm with a per-sample offset: C is a graph input of shape (N,1) next to x (N,K)
+	add(&batchModel{name: "gemm-per-sample-column-bias", inputs: []string{"x", "c"}, inAxis: []int{0, 0}, outputs: []string{"y"}, outAxis: []int{0},
+		mk: func(n int, r *rand.Rand) []tensor.Tensor { return []tensor.Tensor{f32T(r, 1, n, 3), f32T(r, 2, n, 1)} },
+		bytes: buildModel([]*onnx.NodeProto{nd("Gemm", []string{"x", "w", "c"}, []string{"y"})},
+			map[string]tensor.Tensor{"w": f32T(r, 1, 3, 4)}, []string{"x", "c"}, []int{2, 2}, []string{"y"})})
 	// 6b. shapes that coincide with the batch size: x (N,1) against a weight vector (M) broadcasts to (N,M)
 	// whatever N is (N = M included); x (N,T,1) against (T)
 	for _, M := range []int{2, 3, 5} {
